@@ -195,6 +195,9 @@ func (w *Writer) Emit(e *Ev) {
 	w.Per[w.cur]++
 }
 
+// Norm makes every slice of e non-nil (the shape TLC expects).
+func (e *Ev) Norm() { e.norm() }
+
 // EmitAny writes an arbitrary record (used by the non-codec harnesses).
 func (w *Writer) EmitAny(v any) {
 	b, err := json.Marshal(v)
